@@ -516,7 +516,147 @@ def register_walk(R):
                 "The AST objects are frozen: any write to them is a failed frame obligation.")
 
 
+# ---------------------------------------------------------------------------
+# ASTNode.add_child / ASTNode.__init__ on REAL objects: the facts the abstract heap model of pyvc/ext_C15.py relies on
+def register_astnode(R):
+    from pyvc.values import PList
+
+    def node(S, name, nkids, ntok):
+        from swcgeom.transforms.neurolucida_asc import ASTNode, ASTType
+
+        kids = [S.obj(ASTNode, type=ASTType.NODE, value=None, tokens=PList([]), children=PList([]), parent=None) for _ in range(nkids)]
+        return S.obj(ASTNode, type=ASTType.NODE, value=None, tokens=PList([S.int(f"{name}_tok{i}") for i in range(ntok)]), children=PList(kids), parent=None)
+
+    def add_setup(nkids, ntok, ctok):
+        def f(S):
+            me, ch = node(S, "self", nkids, ntok), node(S, "child", 0, ctok)
+            return dict(self=me, child=ch, __ghost__=dict(kids0=list(me.fields["children"].items), toks0=list(me.fields["tokens"].items), ctoks=list(ch.fields["tokens"].items)))
+
+        return f
+
+    def appended_last(E, v, o):
+        g, me = E.spec_extra, v["self"]
+        kids = me.fields["children"].items
+        return kids is not None and len(kids) == len(g["kids0"]) + 1 and all(a is b for a, b in zip(kids, g["kids0"])) and kids[-1] is v["child"]
+
+    def tokens_extended(E, v, o):
+        g = E.spec_extra
+        toks = v["self"].fields["tokens"].items
+        want = g["toks0"] + g["ctoks"]
+        return toks is not None and len(toks) == len(want) and all(a is b for a, b in zip(toks, want))
+
+    def rest_untouched(E, v, o):
+        me, ch, g = v["self"], v["child"], E.spec_extra
+        return (me.fields["parent"] is None and set(me.fields) == set(o["self"].fields) and set(ch.fields) == set(o["child"].fields)
+                and ch.fields["children"].items == [] and [a is b for a, b in zip(ch.fields["tokens"].items, g["ctoks"])] == [True] * len(g["ctoks"])
+                and len(ch.fields["tokens"].items) == len(g["ctoks"]) and all(k.fields["parent"] is None for k in g["kids0"]))
+
+    R.add(f"{ASC}:ASTNode.add_child", prop="C15",
+          variants={"no-children-yet": add_setup(0, 1, 2), "two-children-already": add_setup(2, 3, 5), "child-without-tokens": add_setup(1, 0, 0)},
+          ensures=[("child-appended-last", appended_last), ("child-parent-set", lambda E, v, o: v["child"].fields["parent"] is v["self"]),
+                   ("tokens-extended-by-the-child's", tokens_extended), ("nothing-else-changed", rest_untouched)],
+          notes="fixed sizes (0/1/2 existing children); this is the contract the abstract heap model of add_child assumes")
+
+    def init_setup(S):
+        from swcgeom.transforms.neurolucida_asc import ASTNode, ASTType
+
+        return dict(self=S.obj(ASTNode), type=ASTType.NODE, value=(S.real("x"), S.real("y"), S.real("z"), S.real("r")),
+                    tokens=PList([S.int("t0")]))
+
+    R.add(f"{ASC}:ASTNode.__init__", prop="C15", setup=init_setup,
+          ensures=[("fields-stored", lambda E, v, o: v["self"].fields["type"] is v["type"] and v["self"].fields["value"] is v["value"] and v["self"].fields["tokens"] is v["tokens"]),
+                   ("starts-without-children-and-parent", lambda E, v, o: v["self"].fields["children"].items == [] and "parent" not in v["self"].fields)],
+          notes="a fresh node has no children; `parent` stays the class default None")
+
+
+# ===========================================================================
+# Part 3: the Lexer on concrete short inputs (EFFECTIVELY BOUNDED: concrete strings, run through the same interpreter)
+# expected = (TokenType name, value, unread rest incl. the look-ahead char) | "ValueError" | "StopIteration"
+# written by hand from the format: blanks separate words, each of ( ) | is a word of its own, ';' starts a comment up to the end of
+# the line, a word that starts like a number must BE a number (float(word) of the whole word) -- otherwise the point is malformed.
+LEX_CASES = {
+    "int": (" 1 ", ("FLOAT", 1.0, " ")),
+    "negative-decimal-before-close": ("-2.5)", ("FLOAT", -2.5, ")")),
+    "exponent-after-tab": ("\t1e3\n", ("FLOAT", 1000.0, "\n")),
+    "signed-fraction-exponent-before-bar": ("+.5e-1|", ("FLOAT", 0.05, "|")),
+    "number-glued-to-open": ("1(", ("FLOAT", 1.0, "(")),
+    "decimal-comma": ("3,5 ", "ValueError"),
+    "unit-suffix": ("3.5mm ", "ValueError"),
+    "two-dots": ("1.2.3)", "ValueError"),
+    "dangling-exponent": ("1e ", "ValueError"),
+    "open": ("(1", ("BRACKET_LEFT", "(", "1")),
+    "close": (") ", ("BRACKET_RIGHT", ")", " ")),
+    "bar": ("|(", ("OR", "|", "(")),
+    "comment-to-end-of-line": ("; a note\n(", ("COMMENT", " a note", "(")),
+    "comment-at-end-of-input": (";x", ("COMMENT", "x", "")),
+    "literal": ("Axon)", ("LITERAL", "Axon", ")")),
+    "literal-starting-with-e": ("\n e5 ", ("LITERAL", "e5", " ")),
+    "lone-minus": ("- ", ("LITERAL", "-", " ")),
+    "only-blanks": ("  \n", "StopIteration"),
+    "empty": ("", "StopIteration"),
+}
+WORD_CASES = {  # text -> (word returned by _read_word, unread rest incl. look-ahead)
+    "leading-blanks": ("  ab cd", ("ab", " cd")),
+    "word-ends-at-open": ("ab(cd", ("ab", "(cd")),
+    "word-ends-at-close": ("1.5)", ("1.5", ")")),
+    "word-ends-at-bar": ("x|y", ("x", "|y")),
+    "word-ends-at-semicolon": ("x;y", ("x", ";y")),
+    "word-ends-at-newline": ("x\ny", ("x", "\ny")),
+    "word-ends-at-eof": ("xyz", ("xyz", "")),
+    "delimiter-is-a-word": ("\t)(", (")", "(")),
+    "semicolon-is-a-word": (";c", (";", "c")),
+    "nothing-left": (" \t\n", ("", "")),
+}
+
+
+def lexer_setup(text):
+    def f(S):
+        from swcgeom.transforms.neurolucida_asc import Lexer
+
+        r = X.ConcreteReader(text)
+        first = text[:1]
+        r.pos = len(first)
+        return dict(self=S.obj(Lexer, r=r, lineno=1, column=1, next_char=first), __ghost__=dict(reader=r))
+
+    return f
+
+
+def register_lexer(R):
+    from fractions import Fraction
+
+    LEX = f"{ASC}:Lexer."
+    expect = lambda E: LEX_CASES[E.variant][1]
+
+    def unread(E, v):
+        return v["self"].fields["next_char"] + E.spec_extra["reader"].rest()
+
+    def token_ok(E, v, o):
+        from swcgeom.transforms.neurolucida_asc import TokenType
+
+        ex, tok = expect(E), v["result"]
+        if not isinstance(ex, tuple) or not isinstance(tok, Obj):
+            return False  # a malformed number / the end of input must not yield a token
+        val = tok.fields["value"]
+        same_val = (val == ex[1]) if isinstance(ex[1], str) else (not isinstance(val, str) and Fraction(val) == Fraction(repr(ex[1])))
+        return tok.fields["type"] is TokenType[ex[0]] and same_val
+
+    R.add(LEX + "__next__", prop="C15", variants={k: lexer_setup(t) for k, (t, _) in LEX_CASES.items()},
+          raises={"ValueError": ("only-for-a-word-with-a-numeric-prefix-that-is-not-a-number", lambda E, v, o: expect(E) == "ValueError"),
+                  "StopIteration": ("only-at-the-end-of-input", lambda E, v, o: expect(E) == "StopIteration")},
+          ensures=[("token-type-and-value-of-the-WHOLE-word", token_ok),
+                   ("cursor-just-after-the-token", lambda E, v, o: isinstance(expect(E), tuple) and unread(E, v) == expect(E)[2])],
+          notes="EFFECTIVELY BOUNDED: 19 concrete inputs (numbers, malformed numbers, brackets, bar, comments, literals, end of input); "
+                "regex matching and float() run natively on the concrete word")
+
+    R.add(LEX + "_read_word", prop="C15", variants={k: lexer_setup(t) for k, (t, _) in WORD_CASES.items()},
+          ensures=[("maximal-run-of-non-delimiters-or-one-delimiter", lambda E, v, o: v["result"] == WORD_CASES[E.variant][1][0]),
+                   ("cursor-advanced-by-exactly-the-blanks-and-the-word", lambda E, v, o: unread(E, v) == WORD_CASES[E.variant][1][1])],
+          notes="EFFECTIVELY BOUNDED: 10 concrete inputs covering every delimiter")
+
+
 def register(R):
     register_leaves(R)
     register_core(R)
     register_walk(R)
+    register_astnode(R)
+    register_lexer(R)
